@@ -12,6 +12,7 @@ import (
 	"regexp"
 	"strings"
 	"sync"
+	"sync/atomic"
 
 	connect "github.com/bufbuild/connect-go"
 )
@@ -414,6 +415,8 @@ func streamNeg(c *Ctx) {
 		}
 	}
 	poolIsolationProbe(c)
+	parkedDecompressorProbe(c)
+	staleAcceptProbe(c)
 	failingCompressorProbe(c, "neg-failed-compression-undecodable")
 	hugeLimitLosslessProbe(c)
 	forwardedEncodingProbe(c)
@@ -622,6 +625,87 @@ func failingCompressorProbe(c *Ctx, key string) {
 
 // poolIsolationProbe: corrupt compressed calls interleaved with valid ones on one handler:
 // every valid call must still see its own payload (sequentially and concurrently).
+// strictDecompressor is the RLE decompressor with a conscience: once it has been handed back to
+// its pool (closed, then reset to an empty source) nobody may read from it until it has been
+// given a new source.
+type strictDecompressor struct {
+	rleDecompressor
+	parked     bool
+	violations *int32
+}
+
+func (d *strictDecompressor) Reset(r io.Reader) error {
+	sr, isEmpty := r.(*strings.Reader)
+	d.parked = isEmpty && sr.Len() == 0
+	return d.rleDecompressor.Reset(r)
+}
+
+func (d *strictDecompressor) Read(p []byte) (int, error) {
+	if d.parked {
+		atomic.AddInt32(d.violations, 1)
+	}
+	return d.rleDecompressor.Read(p)
+}
+
+// parkedDecompressorProbe: a decompressor that has gone back to the pool belongs to the next
+// call; the call that returned it reads from it no more - also not to measure a message it has
+// already rejected (round 10, C08-mn).
+func parkedDecompressorProbe(c *Ctx) {
+	var violations int32
+	h := connect.NewUnaryHandler("/s/m", func(ctx context.Context, r *connect.Request[[]byte]) (*connect.Response[[]byte], error) {
+		return connect.NewResponse(&[]byte{1}), nil
+	}, connect.WithCodec(rawCodec{"raw"}), connect.WithReadMaxBytes(64),
+		connect.WithCompression("rle", func() connect.Decompressor { return &strictDecompressor{violations: &violations} }, newRLECompressor))
+	for _, proto := range []string{"connect", "grpc", "grpcweb"} {
+		for _, n := range []int{40, 65, 4000} {
+			z := rleCompress(bytes.Repeat([]byte{5}, n))
+			body := z
+			if proto != "connect" {
+				body = frame(1, z)
+			}
+			req := httptest.NewRequest(http.MethodPost, "/s/m", bytes.NewReader(body))
+			req.ProtoMajor, req.ProtoMinor, req.Proto = 2, 0, "HTTP/2.0"
+			req.Header.Set("Content-Type", ctFor(proto, "unary", "raw"))
+			encH, _ := encHeaderFor(proto, "unary")
+			req.Header.Set(encH, "rle")
+			h.ServeHTTP(httptest.NewRecorder(), req)
+			c.Count("parked-decompressor-probe")
+		}
+	}
+	if v := atomic.LoadInt32(&violations); v != 0 {
+		c.Fail("pool-isolation-parked-read", "unary handler with read limit 64 and a decompressor that notices reads while it is in the pool; messages of 40, 65 and 4000 bytes (compressed) in all three protocols", fmt.Sprintf("%d reads from a decompressor that had been returned to the pool", v), "a pooled decompressor is not touched by the call that returned it")
+	}
+}
+
+// staleAcceptProbe: what a client advertises is what *it* can decode - also when the Request
+// value it sends was sent before by a client with other algorithms (round 10, C08-mm).
+func staleAcceptProbe(c *Ctx) {
+	for _, proto := range []string{"connect", "grpc", "grpcweb"} {
+		h := connect.NewUnaryHandler("/s/m", func(ctx context.Context, r *connect.Request[[]byte]) (*connect.Response[[]byte], error) {
+			out := bytes.Repeat([]byte{7}, 64)
+			return connect.NewResponse(&out), nil
+		}, connect.WithCodec(rawCodec{"raw"}), connect.WithCompression("rle", newRLEDecompressor, newRLECompressor), connect.WithCompressMinBytes(0))
+		desc := proto + ": one Request value sent by a client that accepts rle and gzip, then by a client that accepts gzip only"
+		c.Count("stale-accept-probe")
+		got := safely(func() string {
+			a := connect.NewClient[[]byte, []byte](&inprocClient{h: h}, "http://h/s/m", append(protoOpts(proto), connect.WithAcceptCompression("rle", newRLEDecompressor, newRLECompressor))...)
+			b := connect.NewClient[[]byte, []byte](&inprocClient{h: h}, "http://h/s/m", protoOpts(proto)...)
+			req := connect.NewRequest(&[]byte{1})
+			if _, err := a.CallUnary(context.Background(), req); err != nil {
+				return "first call: " + err.Error()
+			}
+			res, err := b.CallUnary(context.Background(), req)
+			if err != nil {
+				return "second call: " + err.Error()
+			}
+			return fmt.Sprintf("second call ok, %d bytes", len(*res.Msg))
+		})
+		if got != "second call ok, 64 bytes" {
+			c.Fail("neg-accept-stale", desc, got, "the handler answers the second client with something it can decode")
+		}
+	}
+}
+
 func poolIsolationProbe(c *Ctx) {
 	for _, enc := range []string{"gzip", "rle"} {
 		h := connect.NewUnaryHandler("/s/m", func(ctx context.Context, r *connect.Request[[]byte]) (*connect.Response[[]byte], error) {
